@@ -17,6 +17,8 @@ type MsgSpec struct {
 	Zone    int    `json:"zone"`     // minutes east of UTC
 	Subject string `json:"subject"`
 	Body    []byte `json:"body"`
+	// ZeroDate: the delivery carries the zero time (no date known); it must read back as such.
+	ZeroDate bool `json:"zero_date,omitempty"`
 }
 
 func (s *MsgSpec) FromAddr() *mail.Address { return s.From.Mail() }
@@ -33,6 +35,9 @@ func (s *MsgSpec) ToAddrs() []*mail.Address {
 }
 
 func (s *MsgSpec) Date() time.Time {
+	if s.ZeroDate {
+		return time.Time{}
+	}
 	t := BaseTime.Add(time.Duration(s.DateOff) * time.Second)
 	if s.Zone != 0 {
 		t = t.In(time.FixedZone("", s.Zone*60))
@@ -75,6 +80,7 @@ var MsgSpecGen = rapid.Custom(func(t *rapid.T) *MsgSpec {
 	}
 	s.DateOff = rapid.IntRange(-100000000, 100000000).Draw(t, "dateoff")
 	s.Zone = rapid.SampledFrom([]int{0, 0, 60, -300, 345}).Draw(t, "zone")
+	s.ZeroDate = rapid.IntRange(0, 11).Draw(t, "zerodate") == 0
 	s.Subject = rapid.SampledFrom([]string{"", "hello", "s\xffbad utf8", "line\nbreak", "a very long subject " + string(make([]byte, 300)), "=?utf-8?q?enc?=",
 		// metadata larger than any buffer a store is likely to read its index through
 		"ten kilobytes " + strings.Repeat("0123456789", 1000)}).Draw(t, "subject")
